@@ -138,6 +138,7 @@ func runC02(c *Ctx) {
 	c02R1R4(c)
 	c02R2(c)
 	c02R3(c)
+	c02ToleratedSentinels(c)
 	c02Go(c)
 }
 
@@ -836,6 +837,10 @@ func c02Go(c *Ctx) {
 }
 
 var c02Mutants = []Mutant{
+	{Name: "duplicate-name-wraps-already-exists", File: "content/file/errors.go",
+		Old:    "import \"errors\"\n\nvar (\n\tErrMissingName             = errors.New(\"missing name\")\n\tErrDuplicateName           = errors.New(\"duplicate name\")",
+		New:    "import (\n\t\"errors\"\n\t\"fmt\"\n\n\t\"oras.land/oras-go/v2/errdef\"\n)\n\nvar (\n\tErrMissingName             = errors.New(\"missing name\")\n\tErrDuplicateName           = fmt.Errorf(\"duplicate name: %w\", errdef.ErrAlreadyExists)",
+		Expect: "C02.R3.tolerated-sentinel-not-aliased"},
 	{Name: "close-unconditional", File: "copy.go", Old: "\t\t\tif err == nil {\n\t\t\t\t// mark the content as done on success\n\t\t\t\tclose(done)\n\t\t\t}", New: "\t\t\tclose(done)", Expect: "C02.R2"},
 	{Name: "drop-select", File: "copy.go", Old: "\t\t\t\tselect {\n\t\t\t\tcase <-done:\n\t\t\t\tcase <-ctx.Done():\n\t\t\t\t\treturn ctx.Err()\n\t\t\t\t}\n", New: "\t\t\t\t_ = done\n", Expect: "C02.R1"},
 	{Name: "no-ctx-case", File: "copy.go", Old: "\t\t\t\tselect {\n\t\t\t\tcase <-done:\n\t\t\t\tcase <-ctx.Done():\n\t\t\t\t\treturn ctx.Err()\n\t\t\t\t}\n", New: "\t\t\t\t<-done\n", Expect: "C02.R4.cancellable-wait"},
